@@ -43,6 +43,20 @@ def make_cases(rng, tier):
         t = gen.rand_seq(rng, 2 * k + 3)
         t = t[:len(t) - k - 1] + "N" + t[len(t) - k:]                         # N k+1 before the end
         cases.append({"k": k, "rc": (k % 4 == 1), "recs": [t]})
+    # every ORDER in which 2, 3 or 4 different middle bases of one split k-mer can be met (the union table is walked cell by
+    # cell: existing code x new base), in one record per order; windows are separated by N so that nothing else is shared.
+    # (60 orders; two thirds of them single-strand so that the stored base is the written one.)
+    import itertools
+    orders = [p_ for n_ in (2, 3, 4) for p_ in itertools.permutations("ACGT", n_)]
+    rng.shuffle(orders)
+    for oi, order in enumerate(orders):
+        k = [5, 9, 31, 33][oi % 4]
+        h = (k - 1) // 2
+        up, lo = gen.rand_seq(rng, h), gen.rand_seq(rng, h)
+        while up + lo == vlib.revcomp(up + lo):
+            up = gen.rand_seq(rng, h)
+        rec = "N".join(up + m + lo for m in order)
+        cases.append({"k": k, "rc": oi % 3 == 0, "recs": [rec]})
     return cases
 
 
